@@ -409,6 +409,9 @@ class Exec:
         if k == 'range':
             if isinstance(v, Bytes):
                 v = bytes_to_agg(v)
+            if isinstance(v, z3.ExprRef) and z3.is_bv(v) and v.size() > 64 and v.size() % 8 == 0:
+                n_ = v.size() // 8
+                v = Agg('[]', None, [z3.Extract(v.size() - 1 - 8 * i, v.size() - 8 - 8 * i, v) for i in range(n_)], 'array')
             if isinstance(v, Agg) and v.kind == 'array' and pr[2] <= len(v.fields):
                 return Agg('[]', None, v.fields[pr[1]:pr[2]], 'array')
             return Sym(f'{vname(v)}[{pr[1]}..{pr[2]}]', '')
